@@ -213,9 +213,25 @@ func oracleC05(l *harness.Live) (c05Info, *harness.Failure) {
 			return info, f
 		}
 		if p.Op == "interleave" {
-			// expectation: the plain sequence
-			obs, _ := observe(fresh, l.Doc, flavourFor(l, p.Plain), l.Doc.Nodes[p.Ctx%len(l.Doc.Nodes)], action{Op: "select"})
-			want[i] = obs
+			// expectation: the plain sequence - its first 2000 nodes, which is as far as the
+			// two interleaved iterators are advanced
+			var ids []int
+			pan := ""
+			func() {
+				defer func() {
+					if r := recover(); r != nil {
+						pan = "panic: " + fmt.Sprint(r)
+					}
+				}()
+				it := fresh.Select(l.Doc.Nav(flavourFor(l, p.Plain), l.Doc.Nodes[p.Ctx%len(l.Doc.Nodes)], &xdoc.Budget{Limit: 3000000}))
+				for k := 0; k < 2000 && it.MoveNext(); k++ {
+					ids = append(ids, xdoc.NodeOf(it.Current()).ID)
+				}
+			}()
+			want[i] = fmt.Sprint("nodes", ids)
+			if pan != "" {
+				want[i] = pan
+			}
 			continue
 		}
 		want[i] = runPlan(fresh, l.Expr, l, p, false)
